@@ -321,7 +321,7 @@ func (fx *Fx) stdlibMethod(st *State, fn *types.Func, recv Val, args []Val) ([]V
 			return nil, true
 		}
 		ss := fx.d.sortOf(m.Elem())
-		one := app("mk_"+ss, app("store", fx.d.constArray(SStr, "str_empty"), "0", args[1].X), "1")
+		one := app("mk_"+ss, app("store", fx.d.constArray(SStr, "str_empty"), "0", args[1].X), "1", "1", fx.alloc(st, "backing"))
 		fx.mapSet(st, recv, m, key, Val{T: m.Elem(), S: ss, X: one}, "Header.Set")
 		return nil, true
 	case "(*math/rand.Rand).Float64":
